@@ -4,6 +4,7 @@ import (
 	"bytes"
 	"compress/gzip"
 	"context"
+	"fmt"
 	"io"
 	"io/ioutil"
 	"sync"
@@ -63,6 +64,12 @@ type PubSub struct {
 // NewPubSub creates a route that writes metrics to a Google PubSub topic
 // We will automatically run the route and the destination
 func NewPubSub(key string, matcher matcher.Matcher, project, topic, format, codec string, bufSize, flushMaxSize, flushMaxWait int, blocking bool) (Route, error) {
+	if bufSize < 0 || flushMaxSize < 0 {
+		return nil, fmt.Errorf("pubsub(%s): bufSize and flushMaxSize can not be negative", key)
+	}
+	if flushMaxWait <= 0 {
+		return nil, fmt.Errorf("pubsub(%s): flushMaxWait must be > 0", key)
+	}
 	r := &PubSub{
 		baseRoute: baseRoute{sync.Mutex{}, atomic.Value{}, key},
 		project:   project,
